@@ -127,6 +127,10 @@ def mapping_contract(rc: RuleCtx):
     inner = [st for st in loop.body if isinstance(st, ast.While)]
     if len(inner) != 1:
         raise AnalysisError("rdp.mapping: expected one inner while loop")
+    # one value per queried position: a `continue` at the level of the query loop skips a query
+    skips = [n_ for st_ in loop.body if st_ is not inner[0] for n_ in ast.walk(st_) if isinstance(n_, ast.Continue)]
+    if skips:
+        raise AnalysisError(f"rdp.mapping: the query loop can skip a query (`continue`, line {skips[0].lineno}) - shape not recognised")
     k = loop.body.index(inner[0])
     from .common import normalise_while
     w = normalise_while(fi, inner[0])
